@@ -54,6 +54,12 @@ def body(c):
     for expr in ("b'\\0' * (5 * 2 ** 19)", "'ab' * (3 * 2 ** 19)"):
         for cm in (["zlib", 6], ["gzip", 9], ["zlib", 9]):
             cases.append({"k": "size", "expr": expr, "compress": cm, "protocol": 4})
+    # dumps that do not start at offset 0 of their file object (after a header of the caller, followed by a second dump when nothing
+    # reads ahead), from the smallest pickles there are to payloads beyond the io buffer
+    for k2, expr in enumerate(("None", "True", "0", "''", "()", "'abc'", "[1, 'two', (3.0, None)]", "b'\\0' * 8193", "'a' * 70000")):
+        for cm in (0, ["zlib", 3], ["gzip", 3], ["bz2", 3], ["xz", 3]):
+            for pr in ((0, 2, 4, 5) if cm == 0 else (protos[(k2 + len(str(cm))) % len(protos)],)):
+                cases.append({"k": "size", "expr": expr, "compress": cm, "protocol": pr, "embedded": 1 + k2 % 2})
     base = common.scratch("c03")
     nw = 14
     jobs = [(base, k, cases[k::nw]) for k in range(nw)]
@@ -65,7 +71,7 @@ def body(c):
             c.evaluations += 1
             if case["k"] == "cfg": key = {"k": "cfg", "arg": case["cfg"]["arg"], "target": case["cfg"]["target"], "ext": case["cfg"]["ext"], "protocol": case["protocol"]}
             elif case["k"] == "graph": key = {"k": "graph", "graph": case["graph"]["kids"], "kinds": case["kinds"], "compress": case["compress"], "protocol": case["protocol"], "target": case["target"]}
-            else: key = {"k": "size", "expr": case["expr"], "compress": case["compress"], "protocol": case["protocol"]}
+            else: key = {"k": "size", "expr": case["expr"], "compress": case["compress"], "protocol": case["protocol"], "embedded": case.get("embedded")}
             c.nontrivial.add(json.dumps(key, sort_keys=True))
             for pb in r["problems"]:
                 c.violation(dict(key, problem=pb[:60]), "C03: %s: %s" % ({kk: vv for kk, vv in key.items() if kk != "k"}, pb), {})
